@@ -93,7 +93,7 @@ func (s Scope) MatchedWith(name string, expr Expr) (Scope, error) {
 	}
 
 	if v, exists := s.Get(name); exists {
-		if v.String() != expr.String() {
+		if !sameBinding(v, expr) {
 			return Scope{}, fmt.Errorf("%s is redefined differently %s vs %s", name, v, expr)
 		}
 	}
@@ -117,6 +117,18 @@ func (s Scope) Update(t Scope) Scope {
 	return Scope{m: s.m.Update(t.m)}
 }
 
+// sameBinding reports whether two bindings of one name agree: values by
+// equality (the string "1" and the number 1 print alike), anything else by its
+// rendering.
+func sameBinding(a, b Expr) bool {
+	if av, ok := a.(Value); ok {
+		if bv, ok := b.(Value); ok {
+			return av.Equal(bv)
+		}
+	}
+	return a.String() == b.String()
+}
+
 // MatchedUpdate merges s and t. New keys are added as Update,
 // but existing keys fail unless the new value equals the existing value
 func (s Scope) MatchedUpdate(t Scope) (Scope, error) {
@@ -124,7 +136,7 @@ func (s Scope) MatchedUpdate(t Scope) (Scope, error) {
 	for e := s.Enumerator(); e.MoveNext(); {
 		name, v := e.Current()
 		if expr, exists := t.Get(name); exists {
-			if expr.String() != v.String() {
+			if !sameBinding(expr, v) {
 				return Scope{}, fmt.Errorf("the value of %s is different in both scopes", name)
 			}
 		}
